@@ -9,7 +9,7 @@ def run(tier, seed):
     from contracts import operands_c as OC
     from contracts.utils_tables_c import fold_contracts
 
-    cs = [OC.format_int_contract()] + OC.operand_contracts()
+    cs = [OC.format_int_contract()] + OC.operand_contracts() + OC.instruction_contracts()
     # kind clauses of the fold tables: a folded literal is a number or bool (never complex / str / None)
     run_contracts(rep, cs + fold_contracts(), prop_filter=lambda ob: "#fold_equals_chip" not in ob.id)
     rep.extend(OC.opcode_scan())
